@@ -35,6 +35,10 @@ package ollamarunner
 //@   ensures result == nil && endIndex == 2147483647 ==> kvlen(this.ghost_ver, seq) == min(old(kvlen(this.ghost_ver, seq)), beginIndex)
 //@   ensures result == nil && endIndex != 2147483647 ==> kvlen(this.ghost_ver, seq) == old(kvlen(this.ghost_ver, seq)) - (max(min(endIndex, old(kvlen(this.ghost_ver, seq))), min(beginIndex, old(kvlen(this.ghost_ver, seq)))) - min(beginIndex, old(kvlen(this.ghost_ver, seq))))
 //@   ensures beginIndex == 0 && endIndex == 2147483647 ==> result == nil
+// (coverage extension) the real implementation (kvcache.Causal.Remove; its contract in contracts/kvcache requires
+// beginIndex <= endIndex) renumbers every entry at or behind endIndex by beginIndex - endIndex: with an end below the
+// begin nothing is deleted but positions move UP, which the kvlen model cannot express - so callers must not do it.
+//@   requires beginIndex <= endIndex
 
 // CopyPrefix makes dstSeq hold exactly the first len entries of srcSeq.
 //@ extern func kvcache.(Cache).CopyPrefix
